@@ -25,7 +25,7 @@ func (b *HeaderBinding) Bind(req *fasthttp.Request, out any) error {
 		}
 
 		k := utils.UnsafeString(key)
-		v := utils.UnsafeString(val)
+		v := string(val) // bound values outlive the request buffers
 		err = formatBindData(out, data, k, v, b.EnableSplitting, false)
 	})
 
